@@ -36,6 +36,7 @@ IsPmtVerdict(e) ==
   ELSE IF ~e.nil_err THEN "nil-pat-not-an-error"
   ELSE ""
 Verdict(e) == IF e.panic # "" THEN "panic"
+  ELSE IF ~e.earlier_same THEN "object-returned-earlier-reads-differently-after-a-later-call"
               ELSE IF e.op = "pat" THEN PatVerdict(e)
               ELSE IF e.op = "ispmt" THEN IsPmtVerdict(e)
               ELSE "harness-unknown-op"
